@@ -691,6 +691,17 @@ func (vc *VC) applyContract(fx *FuncCtx, st *State, fc *FuncContract, sig *types
 	if fc.ModAll {
 		vc.havocAll(st, "modifies * of "+callee)
 	}
+	if fc.ModInferred {
+		ws := vc.writeSetOf(vc.prog.FindFunc(fc))
+		if ws == nil {
+			vc.havocAll(st, "inferred write set of "+callee+" is unbounded")
+		} else {
+			for _, p := range ws {
+				st.havocPrefix(p, "inferred write set of "+callee)
+				vc.noteHavoc(st, p)
+			}
+		}
+	}
 	var mods []*SX
 	for _, m := range fc.Modifies {
 		// *xs[*] where xs is a slice of interfaces holding pointers: the pointee of every element
